@@ -1,3 +1,26 @@
 #pragma once
-#define EINVAL 22
+/* the C library's per-thread errno (resolved when the world is linked with the native checker) */
+extern int* __errno_location(void);
+#define errno (*__errno_location())
+#define EPERM 1
+#define ENOENT 2
+#define EIO 5
+#define E2BIG 7
+#define EAGAIN 11
 #define ENOMEM 12
+#define EACCES 13
+#define EFAULT 14
+#define EBUSY 16
+#define EEXIST 17
+#define EINVAL 22
+#define ENOSPC 28
+#define ERANGE 34
+#define ENOSYS 38
+#define ENODATA 61
+#define EPROTO 71
+#define EBADMSG 74
+#define EOVERFLOW 75
+#define EMSGSIZE 90
+#define ENOTSUP 95
+#define EOPNOTSUPP 95
+#define ENOBUFS 105
